@@ -7,6 +7,7 @@ import Katib.Drv.C15
 import Katib.Drv.C10
 import Katib.Drv.C17
 import Katib.Drv.C13
+import Katib.Drv.C20
 import Katib.Oracle.Sim
 open Katib Katib.Drv
 
@@ -21,6 +22,7 @@ def handle (toks : List String) : String :=
   | "C10" :: r => handleC10 r
   | "C17" :: r => handleC17 r
   | "C13" :: r => handleC13 r
+  | "C20" :: r => handleC20 r
   | _ => "bad-op"
 
 /-- oracle verdict for one `op => observed-output` line -/
@@ -34,6 +36,7 @@ def handleOracle (toks out : List String) : String :=
   | "C10" :: r => oracleLineC10 r out
   | "C17" :: r => oracleLineC17 r out
   | "C13" :: r => oracleLineC13 r out
+  | "C20" :: r => oracleLineC20 r out
   | _ => "bad-op"
 
 def splitArrow (toks : List String) : List String × List String :=
